@@ -175,8 +175,19 @@ fn frames(out: &mut Out, gen: &mut Gen, thorough: bool) {
     let fillers: [&[u8]; 16] = [b"k", b"1", b"-1", b"0", b"abc", b"", b"EX", b"NX", b"MATCH", b"COUNT", b"WITHSCORES", b"LIMIT", b"9223372036854775808",
                                 &[0xff, 0xfe], b"-9223372036854775809", b"1.5"];
     for name in NAMES {
-        for variant in [name.to_string(), name.to_lowercase(), mixed(name)] {
+        // letters written with characters whose upper case is an ASCII letter (dotless i, long s, the fl ligature):
+        // whatever such a name means, it means the same on every path
+        let alike = name.to_lowercase().replace("fl", "\u{fb02}").replace('i', "\u{131}").replace('s', "\u{17f}");
+        let mut variants = vec![name.to_string(), name.to_lowercase(), mixed(name)];
+        if alike != name.to_lowercase() {
+            variants.push(alike);
+        }
+        for variant in variants {
+            let lookalike = !variant.is_ascii();
             for arity in 0..=6usize {
+                if lookalike && arity > 3 {
+                    continue;
+                }
                 // a few argument vectors per arity: all keys, numeric, keywords, random mix
                 let mut vecs: Vec<Vec<Vec<u8>>> = vec![
                     (0..arity).map(|_| b("k")).collect(),
@@ -402,9 +413,17 @@ fn lua_case(out: &mut Out, gen: &mut Gen) {
     // the program: 1..3 commands; the script returns the last command's reply
     let ncmd = if gen.rng.gen_bool(0.5) { 1 } else { gen.rng.gen_range(2..4) };
     // mostly well-formed commands; some from the failure pool (wrong arity, bad options, unknown names)
-    let prog: Vec<(Value, Argv)> = (0..ncmd).map(|_| if gen.rng.gen_range(0..5) == 0 { gen.other_command() } else { gen.command() }).filter(|(_, a)| script_safe(a)).collect();
+    let mut prog: Vec<(Value, Argv)> = (0..ncmd).map(|_| if gen.rng.gen_range(0..5) == 0 { gen.other_command() } else { gen.command() }).filter(|(_, a)| script_safe(a)).collect();
     if prog.is_empty() {
         return;
+    }
+    // commands that look at the environment (clock, a random key, the key count); their own reply is not
+    // compared (they never come last), what they do to the commands after them is
+    if gen.rng.gen_range(0..4) == 0 {
+        let obs: [&[&str]; 6] = [&["TIME"], &["RANDOMKEY"], &["DBSIZE"], &["KEYS", "*"], &["SCAN", "0"], &["INFO"]];
+        let o = obs[gen.rng.gen_range(0..obs.len())];
+        let at = gen.rng.gen_range(0..prog.len());
+        prog.insert(at, (json!({"op": "OTHER"}), o.iter().map(|x| b(x)).collect()));
     }
     let ncmd = prog.len();
     let j = |r: &Result<RespValue, String>| match r {
